@@ -4,6 +4,10 @@ import json, sys
 
 CHECKS = {
  # id: (technique, level text, level_note, design_ref)
+ "C04": ("bounded-exhaustive enumeration of u32 rectangles / f64 crop boxes / buffer lengths and alignments over every constructor, on both build profiles, exact-arithmetic oracle",
+         "Every (left,top,width,height) from an alphabet that includes 2^31±1 and the values next to u32::MAX is given to all six cropped-view constructors on every image size up to 6x6; every crop box over a valid+invalid f64 alphabet (NaN, ±inf, negative, -0, denormal) goes through Resizer::resize in isolated child processes; nine buffer constructors x 13 pixel types x overflow sizes x lengths x alignments. Accept/reject is compared with exact u64/u128/TwoSum arithmetic and accepted views are read back against the rectangle model; both the optimised and the debug-assertion build are judged.",
+         "Zero-area boxes and f64 boxes that exceed the image by less than the rounding of left+width are don't-care; image sizes are bounded by 7.",
+         "DESIGN.md §4 C04"),
  "C06": ("exhaustive enumeration of (colour, alpha) pairs x lane layouts x back-ends x entry points on the real kernels, exact-integer oracle",
          "All 65536 8-bit pairs in 132 row layouts, 16-bit alpha rows x all 65536 colours (all 2^32 pairs in the thorough tier), boundary pairs at every width/offset, and a float alphabet are executed on every back-end and entry point and compared with exact integer / IEEE arithmetic; the per-pixel function has a finite domain, so enumeration decides it.",
          "Quick tier covers 16-bit pairs with alpha or colour in a 432-value boundary set; floats only on the listed alphabet.",
@@ -16,6 +20,10 @@ CHECKS = {
          "All 256/65536 integer values and a dense boundary alphabet of i32/f32 values are converted through the real dynamic entry point for every type pair; monotonicity, endpoints, saturation, round trips and the accept/reject matrix are judged on the whole enumerated domain.",
          "i32/f32 sources are not enumerated completely (2^32 values): power-of-two neighbourhoods, a stride sweep and per-binade grids are the stated alphabet.",
          "DESIGN.md §4 C17"),
+ "C14": ("bounded-exhaustive enumeration of view kinds x view sizes x every (start,size,parts) triple x direction with split-of-split, rectangle-model oracle with tag images and paint-and-inspect for mutable parts",
+         "For every view kind (owned, referenced, cropped, nested, mutable, and a harness view using only the trait defaults), every view size up to BxB inside parents with margins, every (start,size,parts) incl. invalid ones and values near u32::MAX, and both directions, the real split functions are called; immutable parts are read back pixel by pixel against tags, mutable parts paint their index and the whole root image is compared with the expected index map, and every part is split again (depth 2). Both build profiles.",
+         "B = 8 quick / 20 thorough; depth-2 splits for views up to 5x5 / 8x8; which parts get the remainder is not checked.",
+         "DESIGN.md §4 C14"),
  "C15": ("bounded-exhaustive enumeration of the real function over all size quadruples up to a bound x centering alphabet, judged by an f64 oracle",
          "Every (src,dst) size quadruple up to the bound, a boundary alphabet up to 65535 and the full centering alphabet are executed on the real CropBox::fit_src_into_dst_size and through Resizer::resize; a pure function of five scalars is decided by enumeration of its (bounded) domain.",
          "Sizes above the bound only through the 14-value boundary alphabet; tolerances 4 ulp (aspect) / 2 ulp (centering).",
